@@ -433,8 +433,9 @@ fn handle_diff<T: Clone>(
 
                 // There is space for this new item.
                 res.push(VectorDiff::Insert {
-                    // Subtract 1 because `insert` adds a value compared to `previous_length`.
-                    index: (index - index_of_limit).saturating_sub(1),
+                    // If the view was full, subtract 1 because the `PopFront` emitted
+                    // just above shifted all items of the view by one.
+                    index: if is_full { index - index_of_limit - 1 } else { index },
                     value,
                 });
             } else {
